@@ -114,7 +114,8 @@ func Discharge(o *Obligation, timeoutS int, thorough bool) {
 		want, other = "sat", "unsat"
 	}
 	var total float64
-	var lastOut string
+	var lastOut, errOut string
+	answered := false
 	o.Result = "unknown"
 	for si, s := range solvers {
 		if o.Cover || o.MustFail {
@@ -158,15 +159,18 @@ func Discharge(o *Obligation, timeoutS int, thorough bool) {
 			return
 		}
 		if res == "error" {
-			o.Model = truncate(out, 2000)
-			if o.Result == "unknown" {
-				o.Result = "error"
-			}
+			// a back end that cannot read the script (cvc5 on some z3 array terms) says
+			// nothing about the goal: the verdict of the others stands
+			errOut = truncate(out, 2000)
 			continue
 		}
-		if res == "timeout" && o.Result != "error" {
+		answered = true
+		if res == "timeout" {
 			o.Result = "timeout"
 		}
+	}
+	if !answered && errOut != "" {
+		o.Result, o.Model = "error", errOut
 	}
 	o.TimeS = total
 	if o.Model == "" {
